@@ -41,6 +41,7 @@ type Case struct {
 	DupClose      bool   `json:"dupClose,omitempty"`      // duplicate the close request
 	BackgroundPct int    `json:"backgroundPct,omitempty"` // background loss in the writer's direction (percent)
 	DropAcksMs    int    `json:"dropAcksMs,omitempty"`    // drop every ack travelling towards the writer during the first N ms
+	LatencyMs     int    `json:"latencyMs,omitempty"`     // one-way latency of the (otherwise perfect, FIFO) path
 	Seed          uint64 `json:"seed"`
 	Salt          uint64 `json:"salt"`
 }
@@ -78,8 +79,10 @@ func genCase(t *rapid.T) Case {
 	c.Salt = rapid.Uint64().Draw(t, "salt")
 	if c.UDP {
 		c.MTU = rapid.SampledFrom([]int{0, 1280, 1500}).Draw(t, "mtu")
-		switch rapid.IntRange(0, 5).Draw(t, "faultClass") {
+		switch rapid.IntRange(0, 6).Draw(t, "faultClass") {
 		case 0: // fault free
+		case 6: // fault free with a wide-area round-trip time
+			c.LatencyMs = rapid.SampledFrom([]int{10, 50, 100, 150}).Draw(t, "latencyMs")
 		case 1:
 			c.DropTailData = rapid.IntRange(1, 3).Draw(t, "dropTail")
 		case 2:
@@ -143,8 +146,10 @@ func prop(c Case) (o pbt.Outcome) {
 	closeSeen := 0
 	dataUnacked := false
 	unsentAtClose := false
+	var closeReqAt time.Time
 	var wireNotes []string
 	if c.UDP {
+		pn.Latency = time.Duration(c.LatencyMs) * time.Millisecond
 		tStart := time.Now()
 		keys, _ := e2e.KeysFor(e2e.DefaultUsers, tStart)
 		firstSeen := map[uint32]bool{}
@@ -188,6 +193,9 @@ func prop(c Case) (o pbt.Outcome) {
 			// writer -> reader direction
 			if m.Proto == refproto.CloseSessionRequest {
 				closeSeen++
+				if closeSeen == 1 {
+					closeReqAt = time.Now()
+				}
 				if closeSeen == 1 && highestDataSeq+1 > highestAckFromReader && cum > 0 {
 					dataUnacked = true
 				}
@@ -401,8 +409,14 @@ func prop(c Case) (o pbt.Outcome) {
 
 	mu.Lock()
 	fOnData, unacked, unsent, notes := faultOnData, dataUnacked, unsentAtClose, append([]string(nil), wireNotes...)
+	// how long Close waited before its close request left
+	grace := time.Duration(-1)
+	if !closeReqAt.IsZero() {
+		grace = closeReqAt.Sub(closeStart)
+	}
 	mu.Unlock()
-	o.Obs = map[string]any{"written": written, "read": r.n, "readerErr": fmt.Sprint(r.err), "closeTookMs": closeTook.Milliseconds(), "wire": notes}
+	o.Obs = map[string]any{"written": written, "read": r.n, "readerErr": fmt.Sprint(r.err), "closeTookMs": closeTook.Milliseconds(), "closeRequestLeftAfterMs": grace.Milliseconds(), "wire": notes}
+	o.Label("latency=%v", c.LatencyMs > 0)
 	o.Label("udp=%v", c.UDP)
 	o.Label("serverWrites=%v", c.ServerWrites)
 	o.Label("faultOnData=%v", fOnData)
@@ -429,8 +443,11 @@ func prop(c Case) (o pbt.Outcome) {
 		sig := "truncated-eof"
 		if c.UDP && fOnData {
 			sig = "udp+data-lost-or-overtaken-before-close"
-		} else if c.UDP && unsent {
+		} else if c.UDP && unsent && grace >= 900*time.Millisecond {
+			// the known behaviour: Close gave its send queue the full one-second grace
 			sig = "udp+close-request-sent-before-all-data-was-transmitted"
+		} else if c.UDP && unsent {
+			sig = "udp+close-request-sent-within-the-grace-period-with-data-untransmitted"
 		} else if c.UDP {
 			sig = "udp+truncated-eof-without-data-fault"
 		} else {
